@@ -159,8 +159,15 @@ func NewGen(r *Rng, k Knobs) *Gen {
 	}
 	// user operators
 	on := r.Perm(len(opNames))
+	varName := map[string]bool{}
+	for _, v := range g.C.Vars {
+		varName[v.Name] = true
+	}
 	for i := 0; i < k.NOps; i++ {
 		ret := []Ty{TBool, TBool, TInt, TInt, TStr}[r.Intn(5)]
+		if varName[opNames[on[i]]] {
+			continue // one name cannot be both a variable and an operator
+		}
 		sp := OpSpec{Name: opNames[on[i]], Kind: "pure", Ret: ret, Arity: r.Intn(5)}
 		if r.P(k.Stateless) {
 			sp.Stateless = true
